@@ -81,5 +81,8 @@ def run(ctx):
             signed, nv, ne, " ".join("%d %d" % e for e in edges), len(rev), " ".join(map(str, rev)),
             len(forest), " ".join(map(str, forest)), hasC,
             ("%d %s" % (len(co), " ".join(map(str, co)))) if hasC else ""))
+    ctx.stream("edgelist", gen.edgelist_lines(ctx.rng.fork("edgelist14"), 2000 if ctx.quick else 40000),
+               "edge-list files as read by the tools: nodes, edges and forest/coforest labels vs. the documented grammar",
+               describe=lambda c: gen.EDGELIST_CODES.get(c, str(c)))
     ctx.stream("repmat", lines, "representation matrices: exhaustive small multigraphs x forests x reversals, random",
                describe=lambda c: CODES.get(c, str(c)), nontrivial=lambda l, r: int(l.split()[2]) >= 2)
